@@ -451,7 +451,7 @@ PROPS = {
                    "operator families (Kani per width in C05/C06), PrimInt/ToPrimitive/FromPrimitive, num-integer, subtle (Kani per width, expensive ones only at 7-8 bits); known finding: subtle bit_ct panics for index >= BITS",
         technique="deductive forwarding contracts over uninterpreted spec functions (Verus, all widths) + Kani per-width equality harnesses",
         units=["forward", "forward_shift", "shifts"],
-        kani=dict(features="facades", quick=hs("c20", None, r"^c20::kf_"), thorough=hs("c20", None, r"^c20::kf_"), bounds="see kani/src/c20.rs"),
+        kani=dict(sweep_only=['c05::c05_uamt_w0', 'c05::c05_uamtl_w1', 'c05::c05_uamtr_w1', 'c05::c05_uamtl_w60', 'c05::c05_uamtr_w60', 'c05::c05_uamtl_w64', 'c05::c05_uamtr_w64', 'c05::c05_uamtl_w65', 'c05::c05_uamtr_w65', 'c05::c05_uamtl_edge_w65', 'c05::c05_uamtr_edge_w65', 'c05::c05_uamtl_w129', 'c05::c05_uamtr_w129', 'c05::c05_uamtl_edge_w129', 'c05::c05_uamtr_edge_w129'], features="facades", quick=hs("c20", None, r"^c20::kf_"), thorough=hs("c20", None, r"^c20::kf_"), bounds="see kani/src/c20.rs"),
         known_findings={"subtle_bit_ct_out_of_range": ["c20::kf_c20_subtle_bit_ct_out_of_range_w65"]},
         explanation="a swapped argument, a forward to the wrong variant or *self vs *other breaks r == spec_m(args)",
         trusted=COMMON_TRUST + ["rustc macro expansion (-Zunpretty=expanded)"],
